@@ -378,3 +378,43 @@ PROPERTIES['C18']['not_proved'] = ['the handlers\' exception sets (only the form
                                    'termination of the regex engine itself and of schedula graph construction in AstBuilder']
 PROPERTIES['C18']['assumptions'] = PROPERTIES['C18']['assumptions'] + [
     'a regex match object reports an end position >= 0 (third-party `regex`); a class-specific process() returns a dict']
+
+
+# ------------------------------------------------------------------------------------ numeric literals keep their value
+from pyvc.spec import in_re as _in_re
+from pyvc.contract import TupleT as _TupleT
+
+_LIT = r'([0-9]+(\.[0-9]+)?|\.[0-9]+)(E[+\-][0-9]+)?|TRUE|FALSE'
+
+
+def lemma_number_value(self):
+    return self.compile()
+
+
+class _NumberT(ObjT):
+    def __init__(self):
+        super().__init__('formulas.tokens.operand:Number', {'attr': RecordT({'name': StrT(caseless=True)}), 'source': ConstT('')})
+
+
+c_num = Contract(lambda: lemma_number_value, dict(self=_NumberT()), 'C18', name='Number.compile', use=[], float_mode='real')
+CONTRACTS.append(c_num)
+
+
+@c_num.requires
+def _(self):
+    return _in_re(self.attr['name'], _LIT)
+
+
+@c_num.ensures('a-numeric-literal-is-accepted-with-its-numeric-value', 'P')
+def _(self, result):
+    name = self.attr['name']
+    if name == 'TRUE' or name == 'FALSE':
+        return result is (name == 'TRUE')
+    if _in_re(name, '[0-9]+'):
+        return isinstance(result, int) and not isinstance(result, bool) and result == int(name)      # leading zeros included
+    return isinstance(result, float) and result == float(name)
+
+
+@c_num.canary('canary:always-an-integer')
+def _(self, result):
+    return isinstance(result, int)
